@@ -162,7 +162,10 @@ impl Dictionary {
     }
 
     fn dump_dict_node(&self, vec: &mut Vec<String>, entry_id: i32, prev: String) {
-        let node = &self.header.entries[entry_id as usize];
+        // the node tables come from the file: every reference into them is checked
+        let Some(node) = self.header.entries.get(entry_id as usize) else {
+            return;
+        };
         for i in 0..node.sibling {
             let Some(current) = self.get_string(entry_id, i as i32) else {
                 return;
@@ -173,7 +176,13 @@ impl Dictionary {
                 continue;
             }
 
-            let value = self.header.inner_node[(node.child + i) as usize];
+            let Some(value) = node
+                .child
+                .checked_add(i)
+                .and_then(|index| self.header.inner_node.get(index as usize).copied())
+            else {
+                return;
+            };
             if value == 0 {
                 vec.push(prev.clone() + &current);
                 continue;
@@ -199,16 +208,13 @@ impl Dictionary {
         let entry = self.header.entries.get(entry_id as usize)?;
 
         if entry.flag == 0 {
-            let pos = (entry.offset / 2) as i32 + sibling_id;
-            if pos as usize > self.header.chara.len() {
+            let pos = ((entry.offset / 2) as i32).checked_add(sibling_id)?;
+            let chara = *self.header.chara.get(usize::try_from(pos).ok()?)?;
+            if chara == 0 {
                 return None;
             }
 
-            if self.header.chara[pos as usize] == 0 {
-                return None;
-            }
-
-            return Some(vec![self.header.chara[pos as usize]]);
+            return Some(vec![chara]);
         }
 
         let begin = entry.offset / 2;
@@ -218,7 +224,7 @@ impl Dictionary {
             end += 1;
         }
 
-        Some(self.header.word[begin as usize..end as usize].to_vec())
+        Some(self.header.word.get(begin as usize..end as usize)?.to_vec())
     }
 }
 
